@@ -43,6 +43,14 @@ struct SoPlexVerifAccess
    {
       return sp._rationalLP != nullptr;
    }
+   // column j of the LP as the solver object holds it (scaled values when isRealLPScaled)
+   template <class R> static std::vector<std::pair<int, R>> internalColVector(const soplex::SoPlexBase<R>& sp, int j)
+   {
+      std::vector<std::pair<int, R>> v;
+      const soplex::SVectorBase<R>& c = sp._realLP->colVector(j);
+      for(int k = 0; k < c.size(); k++) v.push_back({c.index(k), c.value(k)});
+      return v;
+   }
 };
 
 #ifndef VF_NO_EXTERN_TEMPLATE
